@@ -43,6 +43,7 @@ struct Defects
     bool falseFlattenCycle = true; // flattenModel(): sibling unit imports through the same files are reported as a cycle
     bool unitCycleOverflow = true; // flattenModel(): checkUnitsForCycles() recurses without bound on cyclic ordinary units
     bool flattenAfterCycle = true; // flattenModel() after a failed resolution misses cycles through child components / component units
+    bool flattenNullChildUnits = true; // flattenModel(): child of an imported component of f0 using imported units of f0: null dereference
     bool shallowFetch() const { return fetchSkipsUnitChildOfLocalUnitChild || fetchSkipsUnitChildOfComponentUnits || fetchSkipsUnitsOfChildComponent; }
 };
 Defects gDef;
@@ -369,6 +370,7 @@ struct Eval
     int maxDepth = 0;
     bool usesU = false, usesC = false, diamond = false;
     bool siblingUnitImports = false; // some reached local units have two or more children that need an import
+    bool nestedUnitsChainWithLocalChild = false; // … -(v|n|k)-> imported units = {imported units = {local units}}: see known.d (flattening regression)
     std::map<int, int> fileVisits;
     long steps = 0;
 
@@ -568,6 +570,9 @@ struct Walker
         }
         if (onEntity) {
             onEntity(file, 'U', name, path);
+        }
+        if (!u->imp && path.size() >= 5 && path.compare(path.size() - 4, 4, "IkIk") == 0 && std::strchr("vnk", path[path.size() - 5]) != nullptr) {
+            ev.nestedUnitsChainWithLocalChild = true;
         }
         if (u->imp) {
             ++importVisits;
@@ -1205,8 +1210,9 @@ bool aliasCollision(const Graph &g)
 
 // A random layered graph: imports only point to files with a larger index (no file-level cycle), any number of
 // entities per file, diamonds, repeated imports, entities nothing depends on.
-void genDag(Src &src, int n, bool collide, bool allowKnown, Graph &g, int &excluded)
+void genDag(Src &src, int n, bool collide, bool allowKnownIn, Graph &g, int &excluded)
 {
+    const bool allowKnown = allowKnownIn || !gDef.flattenNullChildUnits;
     static const char *const un[] = {"ua", "ub", "uc"};
     static const char *const cn[] = {"ca", "cb", "cc"};
     static const char *const stdu[] = {"second", "metre", "kilogram"};
@@ -1511,7 +1517,7 @@ struct ChildRun
                 fail("C07.harness|generated-file-has-parser-errors", f.fname + issues(p));
             }
             if (!im->addModel(m, f.fname)) {
-                fail("C07.harness|addModel-refused", f.fname);
+                fail("C07.library|addModel-refused", f.fname);
             }
         }
     }
@@ -1575,7 +1581,8 @@ struct ChildRun
                     fail("C07.resolved-state|unresolved-after-true|" + state + after + "|unfetched:" + ev.blindToken(), "resolveImports returned true, Model::hasUnresolvedImports() is true");
                 }
                 if (im->errorCount() != 0) {
-                    emit("CNT\ttrue_with_error_issues");
+                    // "true if all imports have been resolved successfully" (importer.h): an error-level issue is a failure report
+                    fail("C07.issue|error-level-issue-although-true|" + state + after, "resolveImports returned true and left error-level issues:" + issues(im));
                 }
             }
         } else if (ev.unsat()) {
@@ -1703,10 +1710,11 @@ void childMain(void *arg)
 {
     const Scenario &s = *static_cast<const Scenario *>(arg);
     signal(SIGALRM, SIG_DFL);
-    // Runaway recursion must hit the end of the stack quickly: the sanitised workers run with a 1 GiB stack.
+    // Runaway recursion must hit the end of the stack quickly (the sanitised workers run with a 1 GiB stack, and the time to
+    // the end is quadratic in its size where the recursion scans a growing history): 8 MiB, the default of an ordinary process.
     struct rlimit rl;
     if (getrlimit(RLIMIT_STACK, &rl) == 0) {
-        const rlim_t want = s.deepRecursionExpected ? (1ul << 30) : (64ul << 20);
+        const rlim_t want = s.deepRecursionExpected ? (1ul << 30) : (8ul << 20);
         if (s.deepRecursionExpected ? (rl.rlim_cur != RLIM_INFINITY && rl.rlim_cur < want) : (rl.rlim_cur == RLIM_INFINITY || rl.rlim_cur > want)) {
             rl.rlim_cur = (rl.rlim_max == RLIM_INFINITY || rl.rlim_max >= want) ? want : rl.rlim_max;
             setrlimit(RLIMIT_STACK, &rl);
@@ -2132,6 +2140,9 @@ void run(Src &tapeSrc, Case &c)
     if (sc.evF.unitCycle()) {
         c.cls("unit-cycle-reached");
     }
+    if (sc.evH.nestedUnitsChainWithLocalChild) {
+        c.cls("nested-imported-units-chain-with-local-child");
+    }
     if (excluded > 0) {
         c.count("excluded:C07.*|unfetched:*", excluded);
     }
@@ -2166,6 +2177,7 @@ void run(Src &tapeSrc, Case &c)
         c.count(std::string("defect-probe:false-flatten-cycle=") + (gDef.falseFlattenCycle ? "present" : "absent"));
         c.count(std::string("defect-probe:unit-cycle-overflow=") + (gDef.unitCycleOverflow ? "present" : "absent"));
         c.count(std::string("defect-probe:flatten-after-cycle-through-component=") + (gDef.flattenAfterCycle ? "present" : "absent"));
+        c.count(std::string("defect-probe:flatten-null-child-units=") + (gDef.flattenNullChildUnits ? "present" : "absent"));
     }
 
     // ---- run
@@ -2192,22 +2204,29 @@ void run(Src &tapeSrc, Case &c)
         }
         int p = r.lastPhase;
         if (r.ret == 1000 + SIGALRM) {
-            // a hang candidate: confirm with a long limit before it is reported
+            // a hang candidate: confirm with a long limit before it is reported - unless a hang of this very class is a
+            // listed known finding already (nothing new would be reported; the confirmation costs 300 s per call)
             c.count("timeouts_20s");
-            sc.limit[p] = 300;
-            ChildResult r2 = runChild(sc);
-            sc.limit[p] = 20;
-            if (r2.ret == 0 && r2.done) {
-                c.count("slow_but_terminating");
-                last = r2;
-                break;
-            }
-            if (r2.lastPhase == p && r2.ret == 1000 + SIGALRM) {
-                fails.emplace_back(std::string("C07.hang|") + kPhaseName[p] + "|" + sc.faultKind + (cycleThroughComponent ? "|cycle-through-component" : "|plain"),
-                                   std::string(kPhaseName[p]) + " did not return within 20 s and, run again, not within 300 s");
+            const std::string hangLoc = (collision && p % 2 == 1) ? "|colliding-names" : ((cycleThroughComponent && p == P_FLAT_F) ? "|cycle-through-component" : "|plain");
+            const std::string hangSig = std::string("C07.hang|") + kPhaseName[p] + "|" + sc.faultKind + hangLoc;
+            if (knownFindingIndex("C07", hangSig) >= 0) {
+                c.count("known_hang_class_not_reconfirmed");
+                fails.emplace_back(hangSig, std::string(kPhaseName[p]) + " did not return within 20 s (a hang of this class is a listed finding: not run again with 300 s)");
             } else {
-                r = r2;
-                p = r.lastPhase;
+                sc.limit[p] = 300;
+                ChildResult r2 = runChild(sc);
+                sc.limit[p] = 20;
+                if (r2.ret == 0 && r2.done) {
+                    c.count("slow_but_terminating");
+                    last = r2;
+                    break;
+                }
+                if (r2.lastPhase == p && r2.ret == 1000 + SIGALRM) {
+                    fails.emplace_back(hangSig, std::string(kPhaseName[p]) + " did not return within 20 s and, run again, not within 300 s");
+                } else {
+                    r = r2;
+                    p = r.lastPhase;
+                }
             }
         }
         if (r.ret != 1000 + SIGALRM) {
@@ -2219,7 +2238,8 @@ void run(Src &tapeSrc, Case &c)
                     r = r3;
                 }
             }
-            std::string loc = collision && p % 2 == 1 ? "|colliding-names" : (cycleThroughComponent && p == P_FLAT_F ? "|cycle-through-component" : "");
+            const bool nestedChain = p % 2 == 1 && (p == P_FLAT_F ? sc.evF : sc.evH).nestedUnitsChainWithLocalChild;
+            std::string loc = collision && p % 2 == 1 ? "|colliding-names" : (cycleThroughComponent && p == P_FLAT_F ? "|cycle-through-component" : (nestedChain ? "|nested-imported-units-chain-with-local-child" : ""));
             fails.emplace_back(std::string("C07.crash|") + kPhaseName[p] + "|" + sc.faultKind + "|" + crashToken(r) + loc,
                                std::string(kPhaseName[p]) + " killed the process (" + std::to_string(r.ret) + "):\n" + r.diag.substr(r.diag.size() > 2500 ? r.diag.size() - 2500 : 0));
         }
@@ -2241,6 +2261,13 @@ void run(Src &tapeSrc, Case &c)
     for (const auto &f : fails) {
         c.alsoFailed.push_back(f);
         c.text += "FAILED " + f.first + "\n";
+    }
+    if (const char *keep = getenv("VERIF_C07_KEEP_FILES")) { // development aid: the healthy files of the case, for other tools
+        for (size_t i = 0; i < sc.healthy.files.size(); ++i) {
+            mkdirs(std::string(keep) + "/sub");
+            std::ofstream o(std::string(keep) + "/" + sc.healthy.files[i].dir + sc.healthy.files[i].fname);
+            o << serialise(sc.healthy, static_cast<int>(i));
+        }
     }
     if (const char *log = getenv("VERIF_C07_LOG")) { // development aid: every failing signature of every case
         std::ofstream o(log, std::ios::app);
@@ -2342,6 +2369,14 @@ Graph probeGraph(int which)
         g.files[0].units.push_back(uImport("u", 1, "u"));
         g.files[1].units.push_back(uLocal("u", {"second", "u"}));
         break;
+    case 6: { // f0: c imported, with a local child that uses units imported by f0
+        CEnt c = cImport("c", 1, "c");
+        c.kids.push_back(cLocal("d0", {"u0"}));
+        g.files[0].comps.push_back(c);
+        g.files[0].units.push_back(uImport("u0", 2, "u"));
+        g.files[1].comps.push_back(cLocal("c", {"second"}));
+        break;
+    }
     default: { // child d1 of c imports f2's c, which imports itself
         g.files[0].comps.push_back(cImport("c", 1, "c"));
         CEnt c = cLocal("c", {"second"});
@@ -2383,6 +2418,12 @@ void probeChild(void *arg)
         emit("PROBE-BEFORE-FLATTEN");
         signal(SIGSEGV, SIG_DFL); // die quietly: a symbolised sanitizer report costs a second per probe
         signal(SIGBUS, SIG_DFL);
+        // ... and soon: the runaway recursion scans a history that grows with the depth, so the time to the end of the stack
+        // is quadratic in its size
+        if (getrlimit(RLIMIT_STACK, &rl) == 0) {
+            rl.rlim_cur = 2ul << 20;
+            setrlimit(RLIMIT_STACK, &rl);
+        }
         (void)imp->flattenModel(m); // dies (or is killed by the alarm) when the defect is present
         present = false;
     }
@@ -2392,8 +2433,8 @@ void probeChild(void *arg)
 void probeDefects()
 {
     bool *flags[] = {&gDef.fetchSkipsUnitChildOfLocalUnitChild, &gDef.fetchSkipsUnitChildOfComponentUnits, &gDef.fetchSkipsUnitsOfChildComponent,
-                     &gDef.falseFlattenCycle, &gDef.unitCycleOverflow, &gDef.flattenAfterCycle};
-    for (int i = 0; i < 6; ++i) {
+                     &gDef.falseFlattenCycle, &gDef.unitCycleOverflow, &gDef.flattenAfterCycle, &gDef.flattenNullChildUnits};
+    for (int i = 0; i < 7; ++i) {
         ProbeJob job {i};
         std::string diag;
         int ret = runIsolated(probeChild, &job, 0, &diag);
